@@ -355,7 +355,9 @@ def worker(cfg):
                             add("tomtom:depends-on-co-processed-queries", "query %d gives a different result when processed in the list %s" % (k, order))
                             return "returned"
             elif mode == "threads":
+                from symtm import env as _env
                 base, _ = run(ctx, list(range(len(qs))), 1)
+                _env.PRANGE_ANY_ORDER[0] = bool(cfg.get("prange_any_order"))     # queries complete in any order (solver-chosen)
                 par, nb = run(ctx, list(range(len(qs))), cfg["n_jobs"])
                 ctx.stats.obligations += 1
                 if nb or T.has_sym(par) or not np.array_equal(np.array(par.tolist(), dtype=float), np.array(base.tolist(), dtype=float)):
@@ -542,6 +544,8 @@ def worker(cfg):
             return "raised"
         finally:
             numba_s.set_num_threads(1)
+            from symtm import env as _env2
+            _env2.PRANGE_ANY_ORDER[0] = False
         if len(out["samples"]) < 2:
             out["samples"].append({"cfg": cfg, "thread_assignment_decisions": len([d for d in ctx.decisions if d[2] is not None])})
         return "returned"
@@ -564,6 +568,8 @@ def configs(tier):
     for seed in ((1,) if q else (1, 2, 4)):
         cf.append(dict(mode="history", seed=seed, rc=(seed % 2 == 0), n_score_bins=6, n_target_bins=100, orders=[[0, 1, 2], [2, 1, 0], [1, 2]]))
     cf.append(dict(mode="threads", seed=3, rc=True, n_score_bins=6, n_jobs=2, n_target_bins=100))
+    # every assignment of queries to 2 threads AND every order in which the 3 queries run
+    cf.append(dict(mode="threads", seed=1, rc=False, n_score_bins=6, n_jobs=2, prange_any_order=True))
     for seed in ((0, 2) if q else (0, 1, 2, 3)):
         cf.append(dict(mode="threads", seed=seed, rc=(seed % 2 == 0), n_score_bins=6, n_jobs=2))
     if not q:
